@@ -157,6 +157,36 @@ Theorem c11_code_section_start_is_the_payload_start : forall base bodies, (lenN 
   ct_code_section_start s (lenN bodies) = base.
 Proof. exact code_section_start_link. Qed.
 
+
+(* ================================================================== instruction LENGTHS are the lengths of the modelled encodings (Model/Bytes.v):
+   the positions the emitter model records with [ex_ilen := ilen_total] are the byte offsets of the instructions in the encoded body, and every
+   instruction of every body is found at its offset inside the code section payload *)
+From WV Require Import Model.Bytes Proofs.Bytes.
+Section ByteOffsets.
+Local Open Scope N_scope.
+Theorem c11_instruction_lengths_positive : forall (i : wins) (bs : list N), enc_ins i = Some bs -> 0 < lenB bs.
+Proof. exact enc_ins_length_positive. Qed.
+Theorem c11_body_length_is_the_sum_of_instruction_lengths :
+  forall (locals : list (N * valty)) (ops : list wins) (bs : list N),
+    enc_body locals ops = Some bs -> exists s : N, sum_ilen ops = Some s /\ lenB bs = lenB (enc_locals locals) + s.
+Proof. exact enc_body_length. Qed.
+Theorem c11_recorded_positions_are_byte_offsets :
+  forall (cx : ParseFn.pctx) (ecx : EmitFn.ectx) (ety : N) (rs : list valty) (l : list ParseSpec.rt) (eloc p0 : N) (ar1 : IR.arena)
+         (st1 : EmitFn.estate) (fuel1 : nat) (ib : list N),
+    ParseSpec.wfl cx 1 l -> ModFix10.enc_ok cx ecx ->
+    ParseFn.parse_body cx ety rs (ParseSpec.flat_list l ++ (WEnd, eloc) :: nil)%list = Ok ar1 ->
+    EmitFn.emit_body ecx fuel1 ar1 0 p0 = Ok st1 ->
+    EmitFn.ex_ilen ecx = ilen_total -> enc_inss (EmitFn.out st1) = Some ib -> ins_offsets p0 (EmitFn.out st1) = Some (map snd (EmitFn.imap st1)).
+Proof. exact emitted_positions_are_byte_offsets. Qed.
+Theorem c11_instruction_is_at_its_offset_in_the_code_section :
+  forall (bodies : list fbody) (bytess : list (list N)) (k : nat) (locals : list (N * valty)) (ops : list wins) (s t : N) (offs : list N)
+         (j : nat) (i : wins) (off : N),
+    enc_bodies bodies = Some bytess -> nth_error bodies k = Some (locals, ops) -> nth_error (code_entry_offsets bytess) k = Some (s, t) ->
+    ins_offsets (lenB (enc_locals locals)) ops = Some offs -> nth_error ops j = Some i -> nth_error offs j = Some off -> wf_imm i = true ->
+    exists rest : list N, dec_ins (dropN (t + off) (code_payload bytess)) = Some (i, rest).
+Proof. exact ins_at_offset. Qed.
+End ByteOffsets.
+
 Print Assumptions c11_pairs_one_per_location.
 Print Assumptions c11_inserted_instructions_in_no_pair.
 Print Assumptions c11_pairs_sound.
@@ -188,3 +218,7 @@ Print Assumptions c11_body_is_at_its_offset.
 Print Assumptions c11_size_field_is_at_its_offset.
 Print Assumptions c11_ranges_are_the_byte_extents.
 Print Assumptions c11_code_section_start_is_the_payload_start.
+Print Assumptions c11_instruction_lengths_positive.
+Print Assumptions c11_body_length_is_the_sum_of_instruction_lengths.
+Print Assumptions c11_recorded_positions_are_byte_offsets.
+Print Assumptions c11_instruction_is_at_its_offset_in_the_code_section.
